@@ -187,6 +187,15 @@ func (te *tableEngine) batchAddPlayers(players []JoinPlayer) error {
 	playerSeatIDs := make(map[string]int)
 	playerRandomSeatIDs := make([]string, 0)
 
+	// a player may appear only once in a batch
+	batchPlayerIDs := make(map[string]bool)
+	for _, p := range players {
+		if batchPlayerIDs[p.PlayerID] {
+			return seat_manager.ErrDuplicatePlayers
+		}
+		batchPlayerIDs[p.PlayerID] = true
+	}
+
 	for _, p := range players {
 		if p.Seat == seat_manager.UnsetSeatID {
 			playerRandomSeatIDs = append(playerRandomSeatIDs, p.PlayerID)
